@@ -522,8 +522,8 @@ class IkeSa(object):
         # switch state
         self.state = IkeSa.State.INIT_RES_SENT
 
-        # store messages for later authentication
-        self.ike_sa_init_req_data = request.to_bytes()
+        # store messages for later authentication (the request exactly as it was received, RFC 7296 2.15)
+        self.ike_sa_init_req_data = request.raw_data
         self.ike_sa_init_res_data = response.to_bytes()
 
         # return response
@@ -713,8 +713,8 @@ class IkeSa(object):
         # process the IKE_SA negotiation payloads
         self.process_ike_sa_negotiation_response(response, self.request.get_payload(Payload.Type.NONCE).nonce)
 
-        # save the message for later authentication
-        self.ike_sa_init_res_data = response.to_bytes()
+        # save the message for later authentication (exactly as it was received, RFC 7296 2.15)
+        self.ike_sa_init_res_data = response.raw_data
 
         # return IKE_AUTH request callback
         return self.generate_ike_auth_request()
